@@ -282,6 +282,42 @@ func runC08(cfg *vh.Config) error {
 	r := cfg.R
 	full := targets[0]
 
+	// the reflector's derivation steps (enum short names, flatten hoisting), recomputed in Coq from the
+	// raw environment of every root type of the run
+	for _, t := range targets {
+		raw, err := codecgen.BuildRawEnv(t.New().Descriptor())
+		if err != nil {
+			res.Count("raw_env_error")
+			res.Notes = append(res.Notes, "raw environment of "+t.Env.Root+": "+err.Error())
+			continue
+		}
+		nFlat, nEnum := 0, 0
+		for _, s := range raw.Schemas {
+			for _, p := range s.Props {
+				if p.Flatten {
+					nFlat++
+				}
+				// "member names are the schema's JSON names": the reflector's name of an own property is
+				// the proto descriptor's JSON name of its field
+				if p.Field != nil && len(p.Path) == 1 {
+					res.Distribution["derivation_json_names_checked"]++
+					if string(p.Field.JSONName()) != p.JSON {
+						res.Fail(vh.Failure{Case: em.caseNo, Stream: "reflector-derivation", Sig: "C08 member name is not the descriptor's JSON name", Clause: "member names are the schema's JSON names",
+							Input: map[string]any{"type": s.Name, "field": string(p.Field.FullName())}, Got: p.JSON + " vs " + string(p.Field.JSONName())})
+					}
+				}
+			}
+			if s.Class == "enum" {
+				nEnum++
+			}
+		}
+		res.Distribution["derivation_flattened_properties"] += nFlat
+		res.Distribution["derivation_enums"] += nEnum
+		res.Count("reflector-derivation")
+		em.add(fmt.Sprintf("CEnv %s %s", raw.RawCoq(), t.Name), "reflector-derivation", map[string]any{"type": t.Env.Root}, map[string]any{"schemas": len(t.Env.Schemas), "raw_schemas": len(raw.Schemas)})
+		em.caseNo++
+	}
+
 	for _, m := range handMessages() {
 		er.encodeCase("hand-written", full, m.ProtoReflect(), true)
 	}
